@@ -14,8 +14,8 @@
    Invariants: an explicit conforming document builds to itself (BuilderSound), and for every
    complete document and option set HtmlDom.HtmlEq(Build(in), Build(MachineOut(in)))  (D => A).
    Constructs on which the *real code* is known to violate the property (known/C03.txt) are
-   excluded by the guards marked X1, X5..X7; everything else is enumerated.  The guards X1 (most of it),
-   X3 and X4 were lifted after the fixes c371690 675df8b 0c8c9ee c6de520 e347d35 8649a6a 13c309a 27d359f 6cae351; the behaviour
+   excluded by the guard marked X7 (and X11 in the content model); everything else is enumerated.  The guards X1,
+   X3, X4, X5 and X6 were lifted after the fixes c371690 675df8b 0c8c9ee c6de520 e347d35 8649a6a 13c309a 27d359f 6cae351 63d09b5 ba7df1a; the behaviour
    before each fix is kept as a switch in Bugs: the negative configurations HtmlMachine_neg_*.cfg set one
    switch each and TLC must then report a violation of DesignRefines (checked by tools/props/c03.py). *)
 EXTENDS HtmlDom, Json
@@ -89,21 +89,10 @@ WsEdgeL(x) == x # <<>> /\ IsWs(x[1])
 WsEdgeR(x) == x # <<>> /\ IsWs(x[Len(x)])
 
 (* ---- known-defect constructs excluded from generation (narrow, syntactic) ---- *)
-(* X1: </colgroup> is always dropped: a following template moves inside.  (The other parts of X1 - script/template
-       after an omitted end tag, also behind a comment, after </optgroup>; content after </rt>; a comment after
-       </optgroup> - were lifted by e347d35 13c309a 27d359f c6de520 0c8c9ee.) *)
-X1(t) == LastSolid.k = "E" /\ LastSolid.t = "colgroup" /\ t = "template"
-(* X3 (</p> before a custom element end tag) and X4 (white space next to noscript, after </template>, and the
-   omitSpace state leaking out of template/noscript) were lifted by 8649a6a c371690 675df8b 6cae351 *)
-(* X5: attribute-less colgroup that is empty or follows another colgroup *)
-X5Start(h) == ~h /\ LastSolid.k = "E" /\ LastSolid.t = "colgroup"
-X5End == LastTok.k = "S" /\ LastTok.t = "colgroup" /\ ~LastTok.h     \* a col must come first
-(* X6: attribute-less body whose first child would be re-parsed into head *)
-X6(t) == /\ t \in {"meta", "link", "script", "style", "template", "noscript"}
-         /\ Top(stack) = "body"
-         /\ LET j == Max({i \in 1..Len(toks) : toks[i].k = "S" /\ toks[i].t = "body"}) IN
-            /\ ~toks[j].h
-            /\ \A k \in (j + 1)..Len(toks) : toks[k].k = "M" \/ (toks[k].k = "T" /\ AllWs(toks[k].x))
+(* X1 (script-supporting element after an omitted end tag), X3 (</p> before a custom element end tag), X4 (white
+   space around noscript/template), X5 (attribute-less colgroup tags) and X6 (<body> before an element that
+   belongs in head) were lifted after the fixes e347d35 13c309a 27d359f c6de520 0c8c9ee 8649a6a c371690 675df8b
+   6cae351 63d09b5 ba7df1a: those constructs are generated again. *)
 (* X7: empty attribute-less script/style *)
 X7 == LastTok.k = "S" /\ LastTok.t \in {"script", "style"} /\ ~LastTok.h
 
@@ -118,8 +107,6 @@ Open(t, h) ==
   /\ t \in Kids(stack)
   /\ nodes + Cost(t) <= MaxNodes
   /\ (t \in VoidEls \/ Len(stack) < MaxDepth + (IF DocMode THEN 2 ELSE 0))
-  /\ ~X1(t) /\ ~X6(t) /\ (X5End => t = "col")
-  /\ (t = "colgroup" => ~X5Start(h))
   /\ (t = "title" => ~HasTitle)
   /\ (t = "head" => LastTok.k = "S" /\ LastTok.t = "html")            \* head first, body after </head>
   /\ (t = "body" => LastTok.k = "E" /\ LastTok.t = "head")
@@ -131,7 +118,6 @@ Open(t, h) ==
 Close ==
   /\ stack # <<>>
   /\ LET t == Top(stack) IN
-     /\ (t = "colgroup" => ~X5End)
      /\ (t \in {"script", "style"} => ~X7)
      /\ (t \in {"dl", "ruby", "html", "head", "title"}
            => LastSolid.k # "S" \/ LastSolid.t # t)                     \* required children present
@@ -149,7 +135,6 @@ Text(x) ==
        ELSE /\ (TextOK(stack) \/ AllWs(x))
             /\ Top(stack) \notin {"html", "head"} \/ AllWs(x)
   /\ (DocMode => stack # <<>>)
-  /\ ~X5End
   /\ (Top(stack) = "option" => ~AllWs(x))
   /\ (Top(stack) = "pre" /\ LastTok.k = "S" => x[1] # 10)               \* a leading newline of pre is dropped by the parser
   /\ toks' = Append(toks, T(x))
@@ -161,7 +146,6 @@ Comment ==
   /\ nodes < MaxNodes
   /\ Top(stack) \notin RawKinds
   /\ (DocMode => stack # <<>> /\ Top(stack) # "html")
-  /\ ~X5End
   /\ toks' = Append(toks, M)
   /\ UNCHANGED <<solid, prev>>
   /\ nodes' = nodes + 1
@@ -244,6 +228,22 @@ MachineOut(in, o) ==
             [] t.k = "M" -> IF "script-la-no-comment" \in Bugs THEN FALSE ELSE SL[j + 1]                  \* 13c309a
             [] t.k = "S" -> t.t \in {"script", "template"}
             [] OTHER     -> FALSE
+      (* does body start with an element that the "after head" rules would put into head? (ba7df1a) *)
+      BL[j \in 1..(n + 1)] ==
+        IF j > n THEN FALSE
+        ELSE LET t == in[j] IN
+          CASE t.k = "T" -> IF AllWs(t.x) THEN BL[j + 1] ELSE FALSE
+            [] t.k = "M" -> BL[j + 1]
+            [] t.k = "S" -> t.t \in {"meta", "link", "script", "style", "template", "noscript", "base", "title"}
+            [] OTHER     -> FALSE
+      (* is the next tag after white space and comments a template start tag? (63d09b5) *)
+      TL[j \in 1..(n + 1)] ==
+        IF j > n THEN FALSE
+        ELSE LET t == in[j] IN
+          CASE t.k = "T" -> IF AllWs(t.x) THEN TL[j + 1] ELSE FALSE
+            [] t.k = "M" -> TL[j + 1]
+            [] t.k = "S" -> t.t = "template"
+            [] OTHER     -> FALSE
       (* look-ahead for </optgroup> *)
       OL[j \in 1..(n + 1)] ==
         IF j > n THEN TRUE
@@ -269,11 +269,17 @@ MachineOut(in, o) ==
           LET emptyRaw == ~t.h /\ t.t \in {"script", "style"} /\ i < n /\ in[i + 1].k = "E"
               s1 == [s EXCEPT !.skip = FALSE, !.raw = t.t \in MRaw, !.pre = IF t.t = "pre" THEN TRUE ELSE s.pre,
                               !.hs = IF t.t \in {"template", "noscript"} /\ Restore THEN Append(s.hs, s.os) ELSE s.hs]   \* 6cae351
+              base == ~t.h /\ ((~o.kdoc /\ t.t \in {"html", "head", "body"}) \/ t.t = "colgroup")
+              superfluous ==
+                CASE t.t = "colgroup" -> base /\ ("colgroup-always" \in Bugs                                      \* 63d09b5
+                                                  \/ (~s.ac /\ i < n /\ in[i + 1].k = "S" /\ in[i + 1].t = "col"))
+                  [] t.t = "body" -> base /\ ("body-always" \in Bugs \/ ~BL[i + 1])                             \* ba7df1a
+                  [] OTHER -> base
           IN IF emptyRaw THEN [s1 EXCEPT !.drop = 1, !.raw = FALSE]
-             ELSE IF ~t.h /\ ((~o.kdoc /\ t.t \in {"html", "head", "body"}) \/ t.t = "colgroup") THEN s1
+             ELSE IF superfluous THEN [s1 EXCEPT !.ac = FALSE]
              ELSE LET os1 == IF o.kws \/ t.t \in MObject THEN FALSE ELSE IF IsMBlock(t.t) THEN TRUE ELSE s1.os
                       os2 == IF t.t \in MNormalOnly /\ i < n /\ in[i + 1].k = "E" /\ in[i + 1].t = t.t THEN FALSE ELSE os1
-                  IN [s1 EXCEPT !.os = os2, !.out = Append(s1.out, t),
+                  IN [s1 EXCEPT !.os = os2, !.out = Append(s1.out, t), !.ac = FALSE,
                                 !.skip = t.t \in {"select", "optgroup"} /\ IsText(i + 1)]
         ELSE \* end tag
           LET pop == t.t \in {"template", "noscript"} /\ Restore /\ s.hs # <<>>
@@ -282,8 +288,10 @@ MachineOut(in, o) ==
                               !.hs = IF pop THEN SubSeq(s.hs, 1, Len(s.hs) - 1) ELSE s.hs,
                               !.os = IF t.t = "template" /\ "template-os" \in Bugs THEN TRUE                   \* 675df8b
                                      ELSE IF pop THEN (IF t.t = "template" THEN saved ELSE s.os /\ saved)      \* 6cae351
-                                     ELSE s.os]
-          IN IF (~o.kdoc /\ t.t \in {"html", "head", "body"}) \/ t.t = "colgroup" THEN s1
+                                     ELSE s.os,
+                              !.ac = t.t = "colgroup"]                                                          \* 63d09b5
+          IN IF (~o.kdoc /\ t.t \in {"html", "head", "body"})
+                \/ (t.t = "colgroup" /\ ("colgroup-always" \in Bugs \/ ~TL[i + 1])) THEN s1
              ELSE LET listed == t.t \in AlwaysOmit \/ ("rt-always" \in Bugs /\ t.t \in {"rt", "rp"})
                       omit == ~o.ket /\ (\/ listed /\ ("omit-before-script" \in Bugs \/ ~SL[i + 1])
                                          \/ ~listed /\ t.t \in {"rt", "rp"} /\ RL[i + 1]
@@ -294,7 +302,7 @@ MachineOut(in, o) ==
                                                    ELSE IF IsMBlock(t.t) THEN TRUE ELSE s1.os,
                                             !.out = Append(s1.out, t)]
                   IN [s2 EXCEPT !.skip = t.t \in {"option", "optgroup"} /\ IsText(i + 1)]
-  IN FoldLeft(Step, [os |-> TRUE, pre |-> FALSE, raw |-> FALSE, skip |-> FALSE, drop |-> 0, hs |-> <<>>, out |-> <<>>],
+  IN FoldLeft(Step, [os |-> TRUE, pre |-> FALSE, raw |-> FALSE, skip |-> FALSE, drop |-> 0, hs |-> <<>>, ac |-> FALSE, out |-> <<>>],
               [i \in 1..n |-> i]).out
 
 ----------------------------------------------------------------------------
@@ -505,5 +513,7 @@ BugOptgroup == {"optgroup-comment"}
 BugScriptComment == {"script-la-no-comment"}
 BugOptgroupScript == {"optgroup-before-script"}
 BugHiddenLeak == {"hidden-leak"}
+BugColgroup == {"colgroup-always"}
+BugBody == {"body-always"}
 VocabDoc == {"html", "head", "body", "title", "meta", "style", "script", "div", "p", "span", "ul", "li", "a", "img"}
 =============================================================================
